@@ -8,16 +8,13 @@ including `r`, of the number of ticks each still needs when nothing is in its wa
 cycle counter in the pipeline, delay-queue counter, pending / port buffer). Helper files `C17Live*.lean`. -/
 namespace C17
 
-theorem run_append (c : Cfg) (ops1 ops2 : List Op) : run c (ops1 ++ ops2) = ops2.foldl (step c) (run c ops1) := by
-  simp [run, List.foldl_append]
-
 /-- **The measure decreases.** From any reachable state `run c ops1`, along *any* continuation `ops2` (deliveries of
 new requests, ticks in which the port accepts or refuses, drains of any size, in any order) the measure of a request that
 has been accepted never grows, and it drops by at least one in every tick in which the port takes the responses of the
-request's bank. Hypotheses: width 1, the builder's `depth, post, banks > 0`, masks not shorter than the data (otherwise
-the component panics). -/
+request's bank. Hypotheses: width 1, the builder's `depth, post, banks > 0`, and `opOk`: masks not shorter than the data
+and addresses the bank address converter (if any) accepts (otherwise the component panics). -/
 theorem remaining_decreases (c : Cfg) (hw : c.width = 1) (hd : 0 < c.depth) (hp : 0 < c.post) (hb : 0 < c.banks)
-    (ops1 ops2 : List Op) (hok : ∀ op ∈ ops1 ++ ops2, opOk op) (r : Req) (hr : r ∈ (run c ops1).arrived) :
+    (ops1 ops2 : List Op) (hok : ∀ op ∈ ops1 ++ ops2, opOk c op) (r : Req) (hr : r ∈ (run c ops1).arrived) :
     remaining c (run c (ops1 ++ ops2)) r
       ≤ remaining c (run c ops1) r - acceptingTicks c (bankOf c r.addr) (run c ops1) ops2 := by
   rw [run_append]
@@ -27,7 +24,7 @@ theorem remaining_decreases (c : Cfg) (hw : c.width = 1) (hd : 0 < c.depth) (hp 
 /-- **Liveness.** An accepted request is answered once the continuation contains `remaining` ticks in which the port
 accepted its bank's responses — arrivals may continue, blocked ticks and partial drains may be interleaved anywhere. -/
 theorem liveness_bounded (c : Cfg) (hw : c.width = 1) (hd : 0 < c.depth) (hp : 0 < c.post) (hb : 0 < c.banks)
-    (ops1 ops2 : List Op) (hok : ∀ op ∈ ops1 ++ ops2, opOk op) (r : Req) (hr : r ∈ (run c ops1).arrived)
+    (ops1 ops2 : List Op) (hok : ∀ op ∈ ops1 ++ ops2, opOk c op) (r : Req) (hr : r ∈ (run c ops1).arrived)
     (hn : remaining c (run c ops1) r ≤ acceptingTicks c (bankOf c r.addr) (run c ops1) ops2) :
     r ∈ (run c (ops1 ++ ops2)).resp.map (·.req) := by
   have h1 := remaining_decreases c hw hd hp hb ops1 ops2 hok r hr
@@ -45,13 +42,13 @@ theorem liveness_bounded (c : Cfg) (hw : c.width = 1) (hd : 0 < c.depth) (hp : 0
 `latencyBound c = max miss 1 + depth · cyclesPerStage + 3` (port buffer → pending → row-miss delay → `depth` stages →
 post-pipeline buffer → answer). The bank count does not enter here; it enters the room condition
 `port_accepts_with_room`. -/
-theorem latency_bound (c : Cfg) (hw : c.width = 1) (hd : 0 < c.depth) (ops : List Op) (hok : ∀ op ∈ ops, opOk op)
+theorem latency_bound (c : Cfg) (hw : c.width = 1) (hd : 0 < c.depth) (ops : List Op) (hok : ∀ op ∈ ops, opOk c op)
     (r : Req) : remaining c (run c ops) r ≤ (ahead c (run c ops) r + 1) * latencyBound c :=
   remaining_le c hd _ (run_LI c ops hok hw) (run_bnd c ops hok hw) r
 
 /-- **Liveness with the explicit bound**: `(ahead + 1) · latencyBound` accepting ticks suffice. -/
 theorem liveness_explicit (c : Cfg) (hw : c.width = 1) (hd : 0 < c.depth) (hp : 0 < c.post) (hb : 0 < c.banks)
-    (ops1 ops2 : List Op) (hok : ∀ op ∈ ops1 ++ ops2, opOk op) (r : Req) (hr : r ∈ (run c ops1).arrived)
+    (ops1 ops2 : List Op) (hok : ∀ op ∈ ops1 ++ ops2, opOk c op) (r : Req) (hr : r ∈ (run c ops1).arrived)
     (hn : (ahead c (run c ops1) r + 1) * latencyBound c ≤ acceptingTicks c (bankOf c r.addr) (run c ops1) ops2) :
     r ∈ (run c (ops1 ++ ops2)).resp.map (·.req) :=
   liveness_bounded c hw hd hp hb ops1 ops2 hok r hr
@@ -61,7 +58,7 @@ theorem liveness_explicit (c : Cfg) (hw : c.width = 1) (hd : 0 < c.depth) (hp : 
 of the ticks of the continuation (in any positions) and the continuation contains at least `remaining + B` ticks, the
 request is answered. -/
 theorem liveness_under_backpressure (c : Cfg) (hw : c.width = 1) (hd : 0 < c.depth) (hp : 0 < c.post) (hb : 0 < c.banks)
-    (ops1 ops2 : List Op) (hok : ∀ op ∈ ops1 ++ ops2, opOk op) (r : Req) (hr : r ∈ (run c ops1).arrived) (B : Nat)
+    (ops1 ops2 : List Op) (hok : ∀ op ∈ ops1 ++ ops2, opOk c op) (r : Req) (hr : r ∈ (run c ops1).arrived) (B : Nat)
     (hB : refusingTicks c (bankOf c r.addr) (run c ops1) ops2 ≤ B)
     (hn : remaining c (run c ops1) r + B ≤ countTicks ops2) :
     r ∈ (run c (ops1 ++ ops2)).resp.map (·.req) := by
@@ -71,7 +68,7 @@ theorem liveness_under_backpressure (c : Cfg) (hw : c.width = 1) (hd : 0 < c.dep
 /-- **When does the port accept?** Whenever the outgoing buffer has room for one full post-pipeline buffer per bank
 (`outBuf + banks · post ≤ top`; with MI300A's 16 · 128 > 1024 this means: drained below the mark), every bank's
 responses are taken in that tick. -/
-theorem port_accepts_with_room (c : Cfg) (hw : c.width = 1) (ops : List Op) (hok : ∀ op ∈ ops, opOk op)
+theorem port_accepts_with_room (c : Cfg) (hw : c.width = 1) (ops : List Op) (hok : ∀ op ∈ ops, opOk c op)
     (hroom : (run c ops).outBuf.length + c.banks * c.post ≤ c.top) (k : Nat) : accepts c (run c ops) k = true :=
   accepts_of_room c _ (run_inv c hw ops) (run_LI c ops hok hw) (run_bnd c ops hok hw) hroom k
 
@@ -97,9 +94,17 @@ theorem blocked_conserves (c : Cfg) (hw : c.width = 1) (ops1 ops2 : List Op) (hn
   rw [ht, List.drop_left]
   exact List.append_cancel_left r2
 
+/-- **No panic on well-formed traffic.** If every delivered request has a mask at least as long as its data, an address
+the bank address converter accepts (when one is installed) and a footprint the storage accepts (`capErr` false), then no
+tick of any reachable state panics — neither the index panic of `finalizeWrite`, nor `log.Panic` of the storage, nor the
+converter's "does not belong to current element". -/
+theorem no_panic_on_ok_traffic (c : Cfg) (hw : c.width = 1) (ops : List Op) (hok : ∀ op ∈ ops, opOk c op) :
+    (tickFlags c (run c ops)).2 = false :=
+  tick_nofault c _ (run_inv c hw ops) (run_LI c ops hok hw)
+
 /-! ### non-vacuity -/
 
-def mi300aL : Cfg := ⟨16, 6, 1, 5, 1, 11, 52, 128, 1024⟩
+def mi300aL : Cfg := ⟨16, 6, 1, 5, 1, 11, 52, 128, 1024, some ⟨128, 16, 0, 0⟩, some 4294967296⟩
 def wr0 : Req := ⟨0, .wr, 0x40, 4, [1, 2, 3, 4], none⟩
 
 /-- MI300A parameters: the write to 0x40 just accepted has `remaining = latencyBound = 60`; a continuation with another
@@ -112,7 +117,7 @@ example : wr0 ∈ (run mi300aL ([.deliver .wr 0x40 4 [1, 2, 3, 4] none] ++
   liveness_bounded mi300aL rfl (by decide) (by decide) (by decide) _ _ (by decide +kernel) wr0 (by decide +kernel)
     (by decide +kernel)
 
-def tiny : Cfg := ⟨2, 6, 1, 1, 1, 0, 0, 1, 1⟩
+def tiny : Cfg := ⟨2, 6, 1, 1, 1, 0, 0, 1, 1, none, none⟩
 /-- back-pressure: port buffer of one slot, full and never drained — the second write stays in flight, nothing is emitted -/
 example : (run tiny [.deliver .wr 0 1 [1] none, .tick, .tick, .tick, .tick]).outBuf.length = 1 ∧
     (run tiny ([.deliver .wr 0 1 [1] none, .tick, .tick, .tick, .tick] ++
